@@ -495,8 +495,63 @@ pub fn check_random_error(e: &E, ctx: &Ctx, pre: &str, noise: u64, l: &mut Local
     Ok(())
 }
 
+/// span validity, template name and display on every error of arbitrary (mostly invalid) sources
+pub fn check_any_source(name: &str, src: &str, family: &str, l: &mut Local) -> Check {
+    let case = || json!({"kind": "any_source", "name": name, "source": src});
+    let mut t = tera::Tera::new();
+    let r = match guard(|| t.add_raw_template(name, src)) {
+        Ok(r) => r,
+        // a panic at registration is C06's business; here it only means there is no error to look at
+        Err(_) => {
+            l.label("any:registration-panicked");
+            return Ok(());
+        }
+    };
+    l.eval();
+    let Err(err) = r else {
+        l.label("any:accepted");
+        return Ok(());
+    };
+    let o = match observe(&err) {
+        Err(p) => return Err(Fail::new("C12/display-panics", format!("{:?}: {p}", src.chars().take(300).collect::<String>()), case())),
+        Ok(None) => {
+            l.label("any:error-without-position");
+            return Ok(());
+        }
+        Ok(Some(o)) => o,
+    };
+    if o.kind != "syntax" {
+        return Err(Fail::new("C12/wrong-error-kind", format!("registration of {:?} failed with a {} error", src.chars().take(300).collect::<String>(), o.kind), case()));
+    }
+    if o.filename != name {
+        return Err(Fail::new("C12/wrong-template", format!("registering {name:?}: the error names {:?}", o.filename), case()));
+    }
+    let probs = span_problems(src, &o.span);
+    if !probs.is_empty() {
+        return Err(Fail::new("C12/span-inconsistent", format!("{:?}: {:?} ({})", src.chars().take(300).collect::<String>(), probs, o.message), case()));
+    }
+    if !o.display.contains(line_text(src, o.span.start_line)) {
+        return Err(Fail::new("C12/display-misses-the-line", format!("{:?}: {:?}", src.chars().take(300).collect::<String>(), o.display.chars().take(300).collect::<String>()), case()));
+    }
+    if !o.display.contains(&format!("{}:{}:{}", name, o.span.start_line, o.span.start_col + 1)) {
+        return Err(Fail::new("C12/display-misses-the-locus", format!("{:?}: {:?}", src.chars().take(300).collect::<String>(), o.display.chars().take(300).collect::<String>()), case()));
+    }
+    l.label(&format!("any:{family}:syntax-error"));
+    if o.span.range.end == src.len() {
+        l.label("any:span-at-end-of-input");
+    }
+    if o.span.start_line != o.span.end_line {
+        l.label("fault:multi-line-span");
+    }
+    if o.span.start_line > 1 || !src[..o.span.range.start].is_ascii() {
+        l.label("any:not-first-line-or-after-multibyte");
+        l.nontrivial(hash_str(src));
+    }
+    Ok(())
+}
+
 pub fn run(rep: &Report) {
-    rep.set_rule("fault injection: a six-template scaffold (parent with a block and a trailing include, child overriding the block with super(), include chain 3 deep, component library, component calls with and without body; includes optionally wrapped in a filter section, a set block or a component-call body) whose templates start with generated multi-line prefixes (LF and CRLF lines, tabs, combining and 4-byte characters, comments, working tags) receives exactly one fault at a recorded byte range in one of eight positions (top level and block of the parent, block of the child, each include depth, component-call body, component definition body): 50 render-fault kinds and 30 syntax-fault kinds. Oracle: error kind; filename = template whose source holds the fault; span within the source on character boundaries with line/column equal to those recomputed from the byte offsets (start and end); render faults: span inside the tag/expression holding the fault and overlapping the faulty range; syntax faults: span never ends before the fault (must touch it for the classes the snapshots pin); Display does not panic, contains the start line and the locus, and contains one `called from` note per call site of the chain, innermost first, each pointing into its call site. Plus: span validity on every positioned error raised by generated C02 expressions spelled with random newlines and whitespace after a generated prefix. Non-trivial: fault not on the first line, or after a multi-byte character, or not in the entry template; distinct by (fault, position, prefixes).");
+    rep.set_rule("fault injection: a six-template scaffold (parent with a block and a trailing include, child overriding the block with super(), include chain 3 deep, component library, component calls with and without body; includes optionally wrapped in a filter section, a set block or a component-call body) whose templates start with generated multi-line prefixes (LF and CRLF lines, tabs, combining and 4-byte characters, comments, working tags) receives exactly one fault at a recorded byte range in one of eight positions (top level and block of the parent, block of the child, each include depth, component-call body, component definition body): 50 render-fault kinds and 30 syntax-fault kinds. Oracle: error kind; filename = template whose source holds the fault; span within the source on character boundaries with line/column equal to those recomputed from the byte offsets (start and end); render faults: span inside the tag/expression holding the fault and overlapping the faulty range; syntax faults: span never ends before the fault (must touch it for the classes the snapshots pin); Display does not panic, contains the start line and the locus, and contains one `called from` note per call site of the chain, innermost first, each pointing into its call site. Plus: span validity (and, for registration errors, template name, start line and locus in the Display text) on every positioned error raised by generated C02 expressions spelled with random newlines and whitespace after a generated prefix, by token soup after a generated prefix, by mutated repository snapshot inputs, and by every prefix (every third in the quick tier) of every repository snapshot input. Non-trivial: fault not on the first line, or after a multi-byte character, or not in the entry template; distinct by (fault, position, prefixes).");
     rep.assume("render-time errors that the engine reports as plain messages (component recursion limit, render depth limit) are outside `syntax or rendering error`; columns count characters (a tab is one column)");
     for k in rep.known.clone() {
         if let Some(Err(f)) = replay(rep, &k.repro) {
@@ -508,6 +563,20 @@ pub fn run(rep: &Report) {
     run_family(rep, "render_faults", n, move || (0..RENDER_FAULTS.len(), 0..HOLES.len(), six(), 0u8..4), |(si, hi, pre, wrap), l| check_render_fault(*si, HOLES[*hi], pre, *wrap, l));
     run_family(rep, "syntax_faults", n / 2, move || (0..SYNTAX_FAULTS.len(), 0..HOLES.len(), six()), |(si, hi, pre), l| check_syntax_fault(*si, HOLES[*hi], pre, l));
     run_family(rep, "random_expression_errors", n, || (exprgen::expr_strategy(4, exprgen::GenOpts::default()), exprgen::ctx_strategy(), prefix(), any::<u64>()), |(e, ctx, pre, noise), l| check_random_error(e, ctx, pre, *noise, l));
+    // every positioned error of arbitrary sources: token soup after a multi-line prefix, mutated and truncated repository inputs
+    run_family(rep, "soup_errors", n, || (prefix(), super::c06::soup(super::c08::Delims::default())), |(pre, s), l| check_any_source("soup.html", &format!("{}{s}", pre.replace("ok", "1")), "soup", l));
+    let seeds = super::c06::seed_sources();
+    if seeds.is_empty() {
+        rep.inconclusive("no repository snapshot inputs found under /repo/tera/src/snapshot_tests");
+    } else {
+        let ns = seeds.len();
+        let sref = &seeds;
+        run_family(rep, "mutated_input_errors", n / 2, move || (0..ns, 0..ns, prop::collection::vec((any::<u8>(), any::<u16>(), any::<u16>()), 1..4)), move |(i, j, ops), l| check_any_source("dir/m.html", &super::c06::mutate(&sref[*i], &sref[*j], ops), "mutate", l));
+        // exhaustive: every prefix of every snapshot input (end-of-input errors on every line and column)
+        let stride = if rep.tier == Tier::Thorough { 1 } else { 3 };
+        let cuts: Vec<(usize, usize)> = seeds.iter().enumerate().flat_map(|(fi, s)| s.char_indices().map(move |(i, _)| (fi, i)).step_by(stride)).collect();
+        run_enum(rep, "truncated_input_errors", &cuts, move |(fi, cut), l| check_any_source("p.txt", &sref[*fi][..*cut], "truncate", l));
+    }
     // exhaustive pass without prefixes
     let plain: [String; 6] = Default::default();
     let all: Vec<(usize, usize, u8)> = (0..RENDER_FAULTS.len()).flat_map(|s| (0..HOLES.len()).flat_map(move |h| (0u8..4).map(move |w| (s, h, w)))).collect();
@@ -515,7 +584,7 @@ pub fn run(rep: &Report) {
     run_enum(rep, "render_faults_all_positions", &all, move |(s, h, w), l| check_render_fault(*s, HOLES[*h], &plain2, *w, l));
     let alls: Vec<(usize, usize)> = (0..SYNTAX_FAULTS.len()).flat_map(|s| (0..HOLES.len()).map(move |h| (s, h))).collect();
     run_enum(rep, "syntax_faults_all_positions", &alls, move |(s, h), l| check_syntax_fault(*s, HOLES[*h], &plain, l));
-    for (lab, min) in [("render-fault", 100_000), ("syntax-fault", 50_000), ("fault:not-on-first-line", 100_000), ("fault:after-multibyte", 50_000), ("fault:multi-line-span", 5_000), ("fault:with-call-chain", 50_000), ("fault:include-inside-capture", 20_000), ("random:error-with-position", 50_000), ("hole:CompBody", 10_000), ("hole:ChildBlock", 10_000), ("hole:Inc3", 10_000)] {
+    for (lab, min) in [("render-fault", 100_000), ("syntax-fault", 50_000), ("fault:not-on-first-line", 100_000), ("fault:after-multibyte", 50_000), ("fault:multi-line-span", 5_000), ("fault:with-call-chain", 50_000), ("fault:include-inside-capture", 20_000), ("random:error-with-position", 50_000), ("hole:CompBody", 10_000), ("hole:ChildBlock", 10_000), ("hole:Inc3", 10_000), ("any:soup:syntax-error", 50_000), ("any:mutate:syntax-error", 10_000), ("any:truncate:syntax-error", 5_000), ("any:span-at-end-of-input", 5_000), ("any:not-first-line-or-after-multibyte", 50_000)] {
         rep.floor(lab, min);
     }
 }
@@ -549,6 +618,7 @@ pub fn replay(_rep: &Report, case: &serde_json::Value) -> Option<Check> {
                 },
             }
         }
+        "any_source" => Some(check_any_source(case.get("name")?.as_str()?, case.get("source")?.as_str()?, "replay", &mut l)),
         "syntax_error_span" => {
             // fixed repro of F15: the span of the error must be consistent with the source
             let src = case.get("source")?.as_str()?;
